@@ -9,6 +9,7 @@ import pvtools
 FAMILIES = ['curve', 'solver', 'component']
 BRIDGES = ['br_curve_', 'br_idealcurve_', 'br_flux_', 'br_conv_', 'br_metric_']
 PROPS_V = 'Props/C09.v'
+EXTRA_TARGETS = ['Model/NumCheck.vo']
 BUDGET = {'quick': 400, 'thorough': 10000}
 ORACLE_RULE = ('built-in and synthetic mixtures (NRTL) x 3 permeate modes x permeances 1e-6..1 x 1-4 feed compositions in (0,1) given as mass OR mole '
                'fractions x T 273..400 K x units {kg, SI, GPU}: forward solve at precision 1e-9 -> curve from fluxes -> compare permeances; curve from '
@@ -98,6 +99,14 @@ def oracle(rng, tier):
         case = {'mixture': gens.describe_mixture(m), 'T': T, 'xs': xs, 'basis': basis, 'P1': P1, 'P2': P2, 'mode': mode, 'Tp': Tp, 'pp': pp, 'units': units}
         for kind, ok, detail in check_case(m, T, xs, basis, P1, P2, mode, Tp, pp, units):
             yield {'kind': kind, 'case': case, 'ok': ok, 'detail': detail, 'nontrivial': mode != 'vac' or units != KG}
+
+
+def correspondence(tier, seed):
+    import corr_numeric
+    budget = {'curve': 40, 'convert': 10}
+    if tier == 'thorough':
+        budget = {k: v * 12 for k, v in budget.items()}
+    return corr_numeric.run(seed, budget, nmax=30 if tier == 'quick' else 200, tag='C09')
 
 
 def replay(rep):
